@@ -1,0 +1,147 @@
+//go:build verif
+
+package align
+
+// Contracts for PartitionSet (align/partition.go), properties C03 (the
+// partition parser never panics and returns a map over the declared length)
+// and C04 (Split relies on Partition/NPartitions).
+
+// site j is assigned code psite(ps, j): -1 (no partition) or the index of a declared partition
+//@ pure func psite(ps *PartitionSet, j int) int = ps.partitions[j]
+//@ pure func npart(ps *PartitionSet) int = len(ps.names)
+// well-formed partition map over ps.length sites
+//@ pure func wfps(ps *PartitionSet) bool = ps != nil && ps.length >= 0 && len(ps.partitions) == ps.length && len(ps.names) == len(ps.models) && (forall j :: 0 <= j && j < len(ps.partitions) ==> -1 <= ps.partitions[j] && ps.partitions[j] < len(ps.names)) && (base(ps.names) != base(ps.models) || cap(ps.names) == 0 || cap(ps.models) == 0)
+
+//@ func NewPartitionSet
+//@   props C03 C04
+//@   requires alignmentLength >= 0
+//@   ensures ps != nil && fresh(ps) && wfps(ps) && ps.length == alignmentLength && npart(ps) == 0
+//@   ensures forall j :: 0 <= j && j < alignmentLength ==> psite(ps, j) == -1
+//@   ensures fresh(ps.partitions) && fresh(ps.names) && fresh(ps.models)
+//@   modifies nothing
+//@   loop 1
+//@     invariant 0 <= i && i <= alignmentLength && fresh(partitions) && len(partitions) == alignmentLength
+//@     invariant forall j :: 0 <= j && j < i ==> partitions[j] == -1
+//@     decreases alignmentLength - i
+
+// ---- pure queries ----
+
+//@ func (*PartitionSet).NPartitions
+//@   props C03 C04 C19
+//@   requires ps != nil
+//@   ensures result == npart(ps)
+//@   modifies nothing
+
+// Partition: the code of the site, -1 outside [0, length)
+//@ func (*PartitionSet).Partition
+//@   props C03 C04 C19
+//@   requires wfps(ps)
+//@   ensures result == ((0 <= position && position < ps.length) ? psite(ps, position) : -1)
+//@   ensures -1 <= result && result < npart(ps)
+//@   modifies nothing
+
+//@ func (*PartitionSet).AliLength
+//@   props C03 C04 C19
+//@   requires ps != nil
+//@   ensures result == ps.length
+//@   modifies nothing
+
+//@ func (*PartitionSet).CheckSites
+//@   props C03 C04 C19
+//@   requires wfps(ps)
+//@   ensures (err == nil) == (forall j :: 0 <= j && j < ps.length ==> psite(ps, j) != -1)
+//@   modifies nothing
+//@   loop 1
+//@     invariant err == nil
+//@     invariant forall k :: 0 <= k && k < $i ==> psite(ps, k) != -1
+//@     decreases len(ps.partitions) - $i
+
+// ---- AddRange ----
+// k is the code AddRange gives to partition `name`: its first index among the declared names, or the next free code
+//@ pure func isfirst(ps *PartitionSet, name string, k int) bool = 0 <= k && k <= len(ps.names) && (k < len(ps.names) ==> ps.names[k] == name) && (forall q :: 0 <= q && q < k ==> ps.names[q] != name)
+// site j has been (re)assigned by the call
+//@ pure func pch(ps *PartitionSet, j int) bool = ps.partitions[j] != old(ps.partitions[j])
+// j is start or the stride successor of a site assigned by the call
+//@ pure func onchain(ps *PartitionSet, start int, modulo int, j int) bool = j == start || (j - modulo >= start && pch(ps, j - modulo))
+// the sites assigned by the call are exactly start, start+modulo, start+2*modulo, ... below top; they were free and now carry code k:
+// (1) every assigned site was free, carries k, lies in [start, top) and is start or the successor of an assigned site
+// (2) start is assigned if it is below top  (3) the successor of an assigned site is assigned if it is below top
+// (by induction these three clauses determine the set {start + q*modulo | q >= 0, start + q*modulo < top} without any multiplication)
+//@ pure func stride1(ps *PartitionSet, start int, modulo int, k int, top int) bool = forall j :: 0 <= j && j < len(ps.partitions) && pch(ps, j) ==> ps.partitions[j] == k && old(ps.partitions[j]) == -1 && start <= j && j < top && onchain(ps, start, modulo, j)
+//@ pure func stride2(ps *PartitionSet, start int, top int) bool = start < top ==> pch(ps, start)
+//@ pure func stride3(ps *PartitionSet, modulo int, top int) bool = forall j :: 0 <= j && j < len(ps.partitions) && pch(ps, j) && modulo < top - j ==> pch(ps, j + modulo)
+//@ pure func stride(ps *PartitionSet, start int, modulo int, k int, top int) bool = stride1(ps, start, modulo, k, top) && stride2(ps, start, top) && stride3(ps, modulo, top)
+// closed form of the same set: j lies on the stride start, start+modulo, ... <= end
+//@ pure func onstride(start int, end int, modulo int, j int) bool = start <= j && j <= end && emod(j - start, modulo) == 0
+// the backing arrays of the two lists of names are the ones they had at function entry (append in place) or new ones
+// (spec-function parameters are values: the lists must be reached through ps for old() to mean anything)
+//@ pure func nameskept(ps *PartitionSet) bool = ((base(ps.names) == old(base(ps.names)) && off(ps.names) == old(off(ps.names)) && cap(ps.names) == old(cap(ps.names))) || fresh(ps.names)) && ((base(ps.models) == old(base(ps.models)) && off(ps.models) == old(off(ps.models)) && cap(ps.models) == old(cap(ps.models))) || fresh(ps.models))
+//@ pure func rangeok(ps *PartitionSet, start int, end int, modulo int) bool = 0 <= start && end < ps.length && modulo > 0
+
+//@ func (*PartitionSet).AddRange
+//@   props C03 C04
+//@   arith wrap64
+//@   requires wfps(ps)
+//@   ensures wfps(ps) && ps.length == old(ps.length) && len(ps.partitions) == old(len(ps.partitions))
+//@   ensures nameskept(ps) && sameslice(ps.partitions, old(ps.partitions))
+// invalid arguments: explicit error, nothing changes
+//@   ensures !old(rangeok(ps, start, end, modulo)) ==> err != nil && npart(ps) == old(npart(ps)) && (forall j :: 0 <= j && j < ps.length ==> !pch(ps, j))
+// declared partitions keep their code, name and model; the named partition gets code k (an existing one, or the next free code with the given model)
+//@   ensures npart(ps) >= old(npart(ps)) && (forall q :: 0 <= q && q < old(npart(ps)) ==> ps.names[q] == old(ps.names[q]) && ps.models[q] == old(ps.models[q]))
+//@   ensures old(rangeok(ps, start, end, modulo)) ==> forall k :: old(isfirst(ps, partName, k)) ==> npart(ps) == (k == old(npart(ps)) ? k + 1 : old(npart(ps))) && ps.names[k] == partName && (k == old(npart(ps)) ==> ps.models[k] == modelName)
+// success: exactly the sites start, start+modulo, ... <= end are assigned to k, all of them were free; every other site is unchanged
+//@   ensures err == nil ==> forall k :: old(isfirst(ps, partName, k)) ==> stride1(ps, start, modulo, k, end + 1)
+//@   ensures err == nil ==> stride2(ps, start, end + 1)
+//@   ensures err == nil ==> stride3(ps, modulo, end + 1)
+// failure with valid arguments: there is a first stride site c that was already assigned; the stride sites below c have been assigned, nothing else changed
+//@   ensures err != nil && old(rangeok(ps, start, end, modulo)) ==> forall k :: old(isfirst(ps, partName, k)) ==> exists c :: start <= c && c <= end && old(psite(ps, c)) != -1 && onchain(ps, start, modulo, c) && stride(ps, start, modulo, k, c)
+// the same in closed form (non-linear: j - start is a multiple of modulo)
+//@   ensures err == nil ==> forall j :: 0 <= j && j < ps.length ==> pch(ps, j) == onstride(start, end, modulo, j)
+// error iff the arguments are invalid or some site of the stride was already assigned (two directions)
+// (success: every assigned site was free; with the closed form above: every site of the stride was free)
+//@   ensures err == nil ==> old(rangeok(ps, start, end, modulo)) && (forall j :: 0 <= j && j < ps.length && pch(ps, j) ==> old(psite(ps, j)) == -1)
+//@   ensures err != nil && old(rangeok(ps, start, end, modulo)) ==> exists c :: 0 <= c && c < ps.length && onstride(start, end, modulo, c) && old(psite(ps, c)) != -1
+//@   modifies ps.names, ps.models, ps.names[+], ps.models[+], ps.partitions[*]
+//@   loop 1
+//@     invariant partitionIndex == -1 && err == nil
+//@     invariant forall q :: 0 <= q && q < $i ==> ps.names[q] != partName
+//@     decreases len(ps.names) - $i
+//@   loop 2
+//@     modifies ps.partitions[*]
+//@     invariant wfps(ps) && ps.length == old(ps.length) && len(ps.partitions) == old(len(ps.partitions)) && err == nil && 0 <= start && start <= i && end < ps.length && modulo > 0
+//@     invariant 0 <= partitionIndex && partitionIndex < npart(ps) && old(isfirst(ps, partName, partitionIndex))
+//@     invariant npart(ps) == (partitionIndex == old(npart(ps)) ? partitionIndex + 1 : old(npart(ps))) && ps.names[partitionIndex] == partName && (partitionIndex == old(npart(ps)) ==> ps.models[partitionIndex] == modelName)
+//@     invariant forall q :: 0 <= q && q < old(npart(ps)) ==> ps.names[q] == old(ps.names[q]) && ps.models[q] == old(ps.models[q])
+//@     invariant stride(ps, start, modulo, partitionIndex, i) && onchain(ps, start, modulo, i)
+//@     invariant forall j :: 0 <= j && j < len(ps.partitions) && pch(ps, j) ==> j <= i - modulo && j <= end
+//@     invariant emod(i - start, modulo) == 0
+//@     invariant forall j :: i < j && j - i < modulo ==> emod(j - start, modulo) != 0
+//@     invariant forall j :: 0 <= j && j < ps.length ==> pch(ps, j) == (start <= j && j < i && emod(j - start, modulo) == 0)
+//@     decreases end - i + 1
+
+// ---- names of the declared partitions ----
+
+// PartitionName / ModeleName: the declared name, "" for a code that does not exist
+//@ func (*PartitionSet).PartitionName
+//@   props C03 C04 C19
+//@   requires wfps(ps)
+//@   ensures result == ((0 <= code && code < npart(ps)) ? ps.names[code] : "")
+//@   modifies nothing
+
+//@ func (*PartitionSet).ModeleName
+//@   props C03 C04 C19
+//@   requires wfps(ps)
+//@   ensures result == ((0 <= code && code < npart(ps)) ? ps.models[code] : "")
+//@   modifies nothing
+
+// String: safety only (no index out of range, terminates, reads only)
+//@ func (*PartitionSet).String
+//@   props C03 C19
+//@   requires wfps(ps)
+//@   modifies nothing
+//@   loop 1
+//@     invariant wfps(ps)
+//@     decreases len(ps.names) - $i
+//@   loop 2
+//@     invariant wfps(ps)
+//@     decreases len(ps.partitions) - $i2
